@@ -420,9 +420,10 @@ def classTablesOk (T : Tables) (cls : String) (types : List String) : Bool :=
       | some e => entryOk T.colormap stabColorKeys e
       | none => false
 
-/-- an assignment that cannot fail on a description whose `params` is a dict and that keeps it so -/
+/-- an assignment that cannot fail on a description whose `params` is a dict, keeps it so, and leaves
+    `type` alone -/
 def Edit.simple : Edit → Bool
-  | .set k _ => k != "params"
+  | .set k _ => k != "params" && k != "type"
   | .param _ _ => true
   | .newParams _ => true
   | .scaleVertices _ => false
